@@ -39,7 +39,7 @@ IO = 'chainables.io'
 
 
 def run(ctx: Ctx):
-  for r in (r1, r2, r3, r4, r6, r8, r9, r10, r11, r12, r14):
+  for r in (r1, r2, r3, r4, r6, r8, r9, r10, r11, r12, r14, r15):
     ctx.guard(r)
   from mlmverif.props import c03
   ctx.include('R-C10-13', '"the captured state": MultiplexIterator.state reads the positions of `_source_iterators` — the'
@@ -858,12 +858,75 @@ def r14(ctx: Ctx):
   ctx.floor(rule, 1, n)
 
 
+def r15(ctx: Ctx):
+  rule = 'R-C10-15'
+  ctx.rule(rule, '"restoring gives an iterator that continues exactly ... and the original can go on independently": a restored'
+           ' iterator is built over REBUILT sources — every source the restore hands to the new iterator is the result of'
+           ' `<source>.from_state(<recorded state>)` on every path. Re-using a source object because it "already is at the'
+           ' recorded position" shares it: in a chain the source of a stage is the live iterator of the previous stage, so'
+           ' the restored stage and the original pull from one upstream — what one consumes the other misses, and the'
+           ' upstream aggregation state is shared')
+  repo = ctx.repo
+  n = 0
+  for fi in repo.all_functions():
+    if fi.name != 'from_state' or not fi.module.name.endswith(('utils.iter_utils', 'chainables.transform')):
+      continue
+    g = cfgm.cfg_of(fi.node)
+    appends = []
+    for nd in g.nodes:
+      for x in cfgm.node_exprs(nd):
+        if isinstance(x, ast.Call) and isinstance(x.func, ast.Attribute) and x.func.attr == 'append' and isinstance(
+            x.func.value, ast.Name) and 'source' in x.func.value.id and x.args and nd.kind == 'stmt' and isinstance(nd.ast, ast.Expr) and (
+                nd.ast.value is x):
+          appends.append((nd, x))
+    if not appends:
+      continue
+
+    def fresh_call(v):
+      return isinstance(v, ast.Call) and isinstance(v.func, ast.Attribute) and v.func.attr == 'from_state'
+
+    def gen(nd, lab):
+      a = nd.ast
+      if nd.kind == 'stmt' and isinstance(a, ast.Assign) and len(a.targets) == 1 and isinstance(a.targets[0], ast.Name) and fresh_call(a.value):
+        return [('fresh', a.targets[0].id)]
+      return []
+
+    def kill(nd, fact):
+      a = nd.ast
+      if nd.kind == 'for_iter':
+        return any(isinstance(y, ast.Name) and y.id == fact[1] for y in ast.walk(a.target))
+      if isinstance(a, ast.Assign) and not fresh_call(a.value):
+        return any(isinstance(y, ast.Name) and y.id == fact[1] for t in a.targets for y in ast.walk(t))
+      return False
+
+    facts = cfgm.must_facts(g, gen, kill)
+    for nd, c in appends:
+      n += 1
+      arg = c.args[0]
+      ok = fresh_call(arg) or (isinstance(arg, ast.Name) and ('fresh', arg.id) in facts.get(nd, ()))
+      what = f'{fi.qualname}: every source of the restored iterator is rebuilt from its recorded state'
+      if ok:
+        ctx.ok(rule, fi, what, c)
+      else:
+        ctx.fail(rule, fi, what,
+                 f'`{unparse(c)}` can hand the ORIGINAL source object to the restored iterator (it is not the result of'
+                 ' from_state on every path): the restored iterator and the one it was restored from then read the same'
+                 ' upstream object — elements are split between them and upstream state is shared', node=c)
+  ctx.floor(rule, 1, n)
+
+
 from mlmverif.selfcheck import B, OK  # noqa: E402
 
 _F = 'chainables/io.py'
 _T = 'chainables/transform.py'
 _U = 'utils/iter_utils.py'
 VARIANTS = [
+    B('restore-reuses-a-source-at-the-recorded-position', 'utils/iter_utils.py',
+      '      data_sources.append(data_source.from_state(ds_state))',
+      '      if data_source.state != ds_state:\n        data_source = data_source.from_state(ds_state)\n      data_sources.append(data_source)', 'R-C10-15'),
+    OK('restore-rebuilds-through-a-local', 'utils/iter_utils.py',
+       '      data_sources.append(data_source.from_state(ds_state))',
+       '      rebuilt = data_source.from_state(ds_state)\n      data_sources.append(rebuilt)'),
     B('revert-data-iterator-draw-not-counted-on-failure', 'chainables/io.py',
       '    except Exception:\n      # A continuable source has stepped over the element it raised for.\n      self._index += 1\n      raise\n', '', 'R-C10-11'),
     OK('data-iterator-draws-inline', 'chainables/io.py',
